@@ -415,11 +415,12 @@ def striped_io_foreign_keys(ctx, rng, size, wseed):
     import tables
     d = tempfile.mkdtemp(prefix='iokeys', dir=ctx.tmp)
     try:
-        n = int(rng.integers(max(11, size), 16))
+        n = int(rng.integers(max(11, size), max(16, size + 4)))
         style = int(rng.integers(0, 3))
         names = ['arr_%d' % i for i in range(n)] if style == 0 else (
-            ['t%d' % (i * 7 % 23) for i in range(n)] if style == 1 else
-            ['traj-%s' % c for c in 'zyxwvutsrqponmlk'[:n]])
+            ['t%d' % (i * 7 % 23) for i in range(n)] if style == 1 and n <= 23
+            else ['traj-%s' % chr(ord('z') - i) if i < 26 else 'u%d' % i
+                  for i in range(n)])
         rows = {nm: (np.arange(int(rng.integers(2, 9)), dtype=np.float64)
                      + 100.0 * k) for k, nm in enumerate(names)}
         fn = os.path.join(d, 'foreign.h5')
